@@ -129,7 +129,8 @@ class World:
                 sh = AG.shape_of(a, t)
                 if len(sh) == 1 and sh[0] >= 2:
                     hooks[t] = lambda ten: PatternedTensor(ten).unsqueeze(0).expand(1, ten.shape[0])[0]
-        self.fgg, self.info = AG.build_fgg(a, 'real', torch.float64, patterned=hooks)
+        # (dense worlds: finite domains whose values are tuples -- values only need to be hashable)
+        self.fgg, self.info = AG.build_fgg(a, 'real', torch.float64, patterned=hooks, finite_domains=('tuple' if flavour == 'dense' else False))
         self.lfgg, _ = AG.build_fgg(a, 'log', torch.float64)
         self.bfgg, _ = AG.build_fgg(a, 'bool')
         self.vfgg, _ = AG.build_fgg(a, 'mp', torch.float64)
@@ -149,13 +150,36 @@ class World:
                     f.weights = f.weights.to_dense().clone()     # a tensor that owns its storage (not a view), as a user's parameter would
                 f.weights.requires_grad_()
         self.flavour = flavour
+        # copies taken before any query: a query must leave every object == to the copy taken before it
+        self.fgg0, self.vfgg0, self.bfgg0 = self.fgg.copy(), self.vfgg.copy(), self.bfgg.copy()
         self.h1, cache = c17.build(cg[0])
         self.h2, _ = c17.build(cg[1])
         self.labels = set(self.fgg.edge_labels())
 
     def snapshot(self):
         return {'fgg': snap_hrg(self.fgg), 'lfgg': snap_hrg(self.lfgg), 'bfgg': snap_hrg(self.bfgg), 'vfgg': snap_hrg(self.vfgg),
-                'h1': snap_hrg(self.h1), 'h2': snap_hrg(self.h2), 'globals': snap_globals()}
+                'h1': snap_hrg(self.h1), 'h2': snap_hrg(self.h2), 'globals': snap_globals(),
+                'eq_copy_taken_before': {'fgg': self._eq(self.fgg, self.fgg0), 'vfgg': self._eq(self.vfgg, self.vfgg0), 'bfgg': self._eq(self.bfgg, self.bfgg0)},
+                'domain_probes': self._probe_domains()}
+
+    @staticmethod
+    def _eq(a, b):
+        try:
+            return [bool(a == b), bool(b == a)]
+        except Exception as e:  # noqa
+            return ['raise:' + type(e).__name__]
+
+    def _probe_domains(self):
+        """contains / numberize / denumberize of every value each domain had when it was built"""
+        out = {}
+        for n, d in self.fgg.domains.items():
+            vals0 = list(self.fgg0.domains[n].values) if hasattr(self.fgg0.domains[n], 'values') else list(range(d.size()))
+            try:
+                out[n] = [[bool(d.contains(v)), int(d.numberize(v)), repr(d.denumberize(i))] for i, v in enumerate(vals0)]
+            except Exception as e:  # noqa
+                out[n] = 'raise:' + type(e).__name__
+        return out
+
 
     def run(self, q):
         import torch, fggs
@@ -288,8 +312,12 @@ def drive(args):
         a = hmm_like(rng)
     else:
         a = AG.gen_ag(rng, n_nts=(1, 3), max_rules=2, max_nodes=4, max_edges=3, recursion=('linear' if widx % 2 else 'none'), weights='small',
-                      dom_sizes=(2, 2, 3), p_zero=0.1, mp_range=(-3, 0), p_norules=0.0, value_cap=1 << 30,
+                      dom_sizes=(2, 2, 3), p_zero=0.1, mp_range=(-3, 0), p_norules=(0.5 if widx % 4 == 0 else 0.0), value_cap=1 << 30,
                       allow_unused_terms=(widx % 2 == 0), n_terms=(3, 5) if widx % 2 == 0 else (1, 4), n_nls=(2, 2) if widx % 2 == 0 else (1, 2))
+    if widx % 3 == 0 and 'N0' not in a['els']:
+        # a declared nonterminal without rules that nothing uses (its sum-product is zero): legal, and a query must not
+        # leave a trace of having looked it up
+        a = dict(a, els=dict(a['els'], N0={'t': False, 'type': []}), elorder=list(a['elorder']) + ['N0'])
     if widx % 2:
         # keep recursive real-valued sum-products finite: scale the natural weights into (0, 1/4]
         a = dict(a)
